@@ -548,6 +548,13 @@ def d3(repo, res):
             t = ast.unparse(e)
             return bool(re.search(r"\.children\b", t) or re.search(r"getattr\([^,]+, ['\"]children['\"]", t)) and "children_all" not in t
         direct_names = {t_.id for a_ in ast.walk(fn) if isinstance(a_, ast.Assign) and direct_children(a_.value) for t_ in a_.targets if isinstance(t_, ast.Name)}
+        # a list that is filled with the direct children (`xs.extend(obj.children)`, `xs += obj.children`, `xs.append(c) for c in obj.children`)
+        for a_ in ast.walk(fn):
+            if isinstance(a_, ast.Call) and isinstance(a_.func, ast.Attribute) and a_.func.attr in ("extend", "append", "insert") and isinstance(a_.func.value, ast.Name) \
+                    and any(direct_children(x) for x in a_.args):
+                direct_names.add(a_.func.value.id)
+            if isinstance(a_, ast.AugAssign) and isinstance(a_.target, ast.Name) and direct_children(a_.value):
+                direct_names.add(a_.target.id)
         for n_ in ast.walk(fn):
             it_ = n_.iter if isinstance(n_, (ast.For, ast.comprehension)) else None
             if it_ is None:
